@@ -4,7 +4,7 @@
    (`H` = SHA-256, `Htag` = the TapSighash tagged hash), the curve-point oracle and the vector caps: no property of them is used. *)
 From Coq Require Import List NArith Bool.
 From Coq.Strings Require Import Byte.
-From EV Require Import Base.Bytes Base.Codec Gen.Tables Model.Tx Model.SighashImpl Model.SighashCache Proofs.SighashCache.
+From EV Require Import Base.Bytes Base.Codec Gen.Tables Model.Tx Model.SighashImpl Model.SighashCache Model.SighashQuery Proofs.SighashCache Proofs.SighashWitness.
 Import ListNotations.
 Open Scope N_scope.
 
@@ -62,6 +62,17 @@ Theorem C13_need_all : forall s idx j o annex leaf ty g, schnorr_acp ty = false 
   snd (taproot_encode idx (POne j o) annex leaf ty g s) = SErr PrevoutKind.
 Proof. exact (need_all pt_ok maxvec H). Qed.
 
+(* No answer depends on script_sig, script witness or pegin witness.  Two cache objects over transactions that differ at most in those
+   fields of any inputs (`tx_sig_eq`, Model/SighashQuery.v), driven by the same operations — where corresponding witness_mut
+   operations may even write DIFFERENT stacks (`op_sim`) — give equal answers operation by operation: digests, error results and
+   panics included, for every operation sequence, with no hypothesis on the prevouts. In particular filling in witnesses through the
+   cache never changes a later answer. *)
+Theorem C13_witness_independent : forall ops ops' t t', tx_sig_eq t t' -> Forall2 op_sim ops ops' -> run (init t) ops = run (init t') ops'.
+Proof. intros. apply (run_sim pt_ok maxvec H Htag); [now apply Rel_init|assumption]. Qed.
+(* the simulation behind it, from any pair of related states: equal answers, related states again (equal cache contents) *)
+Theorem C13_witness_independent_step : forall s s' o o', Rel s s' -> op_sim o o' ->
+  snd (step s o) = snd (step s' o') /\ Rel (fst (step s o)) (fst (step s' o')).
+Proof. exact (step_sim pt_ok maxvec H Htag). Qed.
 End C13.
 
 (* sample values for the non-vacuity examples *)
@@ -89,6 +100,19 @@ Example C13_good_filled_state : forall pt_ok maxvec H,
        st_taproot := Some (compute_taproot pt_ok maxvec H f11_tx [f11_spent]) |}.
 Proof. intros. unfold Good. cbn. auto. Qed.
 
+(* non-vacuity of C13_witness_independent: transactions that differ in script_sig, script witness and pegin witness are related, and so
+   are operation sequences that write different witness stacks *)
+Definition f11_in_signed : txin := {| in_prev := in_prev f11_in; in_pegin := false; in_script := [x51; x52]; in_seq := in_seq f11_in; in_iss := null_issuance;
+  in_wit := {| w_amount_rp := None; w_keys_rp := None; w_script := [[x01; x02]; []]; w_pegin := [[x09]] |} |}.
+Example C13_witness_independent_example :
+  tx_sig_eq f11_tx {| tx_version := 2; tx_lock := 0; tx_in := [f11_in_signed]; tx_out := [] |} /\ f11_in <> f11_in_signed /\
+  Forall2 op_sim [OTapKey 0 (PAll [f11_spent]) SAllAcp (repeat x00 32); OWitnessMut 0 [[x01]]; OSegwit 0 [x51] (VExplicit 5) ESingle]
+                 [OTapKey 0 (PAll [f11_spent]) SAllAcp (repeat x00 32); OWitnessMut 0 [[x07]; [x08]]; OSegwit 0 [x51] (VExplicit 5) ESingle].
+Proof. split; [|split].
+  - unfold tx_sig_eq, in_sig_eq. cbn. repeat split; repeat constructor.
+  - discriminate.
+  - constructor; [left; reflexivity|]. constructor; [right; repeat eexists|]. constructor; [left; reflexivity|constructor]. Qed.
+
 Check (C13_coherent : forall pt_ok maxvec H Htag spent t ops,
   Forall (consistent_prevouts spent) ops ->
   run pt_ok maxvec H Htag (init t) ops = fresh_answers pt_ok maxvec H Htag t ops).
@@ -101,6 +125,9 @@ Check (C13_need_all : forall pt_ok maxvec H s idx j o annex leaf ty g, schnorr_a
 Check (C13_caches_ignore_script_witness : forall pt_ok maxvec H t spent i w,
   compute_common pt_ok maxvec H (set_script_witness t i w) = compute_common pt_ok maxvec H t /\
   compute_taproot pt_ok maxvec H (set_script_witness t i w) spent = compute_taproot pt_ok maxvec H t spent).
+Check (C13_witness_independent : forall pt_ok maxvec H Htag ops ops' t t', tx_sig_eq t t' -> Forall2 op_sim ops ops' ->
+  run pt_ok maxvec H Htag (init t) ops = run pt_ok maxvec H Htag (init t') ops').
 Print Assumptions C13_coherent.
+Print Assumptions C13_witness_independent.
 Print Assumptions C13_acp_one.
 Print Assumptions C13_need_all.
